@@ -471,6 +471,8 @@ def run(rep, tier, seed):
                 if not dangling_reported:
                     dangling_reported = True
                     stats["dangling_sample"] = {"case": describe(c, r), "disagreements": bad[:3]}
+                    # the recorded finding (known_findings.json): printed as KNOWN-FINDING, never a VIOLATION
+                    rep.violation({"property": PROP, "kind": "dangling entity reference", "case": describe(c, r)}, key=DANGLING_KEY)
             continue
         bad = oracle(c, r, stats)
         for kind, detail in bad[:1]:
